@@ -20,8 +20,32 @@ def regen_twins(ctx):
     return []
 
 
+BODIES = [
+    "ds/orderedmap/orderedmap.go:type=OrderedMap,OrderedMap.Set,OrderedMap.Delete,OrderedMap.Clear,OrderedMap.ForEach,"
+    "OrderedMap.ForEachReverse,OrderedMap.Head,OrderedMap.Tail,OrderedMap.Get,OrderedMap.Has,OrderedMap.Size,OrderedMap.Clone",
+    "ds/orderedmap/element.go:type=Element",
+]
+
+
+def regen_bodies(ctx):
+    """Hive/Gen/C15_Bodies.lean: source text of the orderedmap functions the pointer-level model mirrors (harness/c15/bodies)."""
+    out = os.path.join(checklib.LEAN, "Hive", "Gen", "C15_Bodies.lean")
+    tmp = os.path.join(ctx.scratch, "C15_Bodies.lean")
+    reqs = [os.path.join(ctx.repo, b) for b in BODIES]
+    rc, log = checklib.sh(["go", "run", "./c15/bodies", tmp, "Hive.Gen.C15Bodies"] + reqs, cwd=checklib.HARNESS, timeout=600)
+    if rc != 0 or not os.path.exists(tmp):
+        return [{"kind": "bodies-extractor", "detail": checklib.tail(log, 20)}]
+    new = open(tmp).read()
+    with checklib.LakeLock():
+        old = open(out).read() if os.path.exists(out) else None
+        if old != new:
+            open(out, "w").write(new)
+            ctx.notes.append("regenerated Hive/Gen/C15_Bodies.lean differs from the previous copy")
+    return []
+
+
 def regen(ctx):
-    return regen_skel(ctx) + regen_twins(ctx)
+    return regen_skel(ctx) + regen_twins(ctx) + regen_bodies(ctx)
 
 
 def regen_skel(ctx):
@@ -48,6 +72,8 @@ def regen_skel(ctx):
         "ds/orderedmap/orderedmap.go:OrderedMap.ForEach",
         "ds/orderedmap/orderedmap.go:OrderedMap.Delete",
         "ds/orderedmap/orderedmap.go:OrderedMap.Set",
+        "ds/orderedmap/orderedmap.go:OrderedMap.Clear",
+        "ds/orderedmap/orderedmap.go:OrderedMap.ForEachReverse",
     ], extra_methods=["Delete", "Set", "Get", "Has", "ForEach", "Hook", "Unhook", "Submit", "Next", "MaxTriggerCount",
                       "TriggerCount", "Load"])
 
@@ -71,6 +97,8 @@ SPEC = {
         "C15_skeleton_twins_uniform", "C15_skeleton_Event_OnTrigger", "C15_skeleton_uniqueID_Next", "C15_skeleton_triggerSettings_MaxTriggerCountReached",
         "C15_skeleton_type_triggerSettings", "C15_skeleton_Hook_WorkerPool", "C15_skeleton_triggerSettings_hasWorkerPool",
         "C15_skeleton_OrderedMap_ForEach", "C15_skeleton_OrderedMap_Delete", "C15_skeleton_OrderedMap_Set",
+        "C15_skeleton_OrderedMap_Clear", "C15_skeleton_OrderedMap_ForEachReverse", "C15_skeleton_orderedmap_bodies",
+        "C15_orderedmap_wellformed", "C15_orderedmap_frozen_pointers", "C15_orderedmap_queries",
     ],
     "trusted_base": [
         "hand-written models Hive/Model/Events*.lean of runtime/event, runtime/promise, runtime/valuenotifier and of "
